@@ -34,6 +34,24 @@ def run(chk: Check, proj: Project) -> None:
     s2(chk, proj, w, m, cls)
     s3(chk, proj, w, m, cls)
     s4(chk, proj, w)
+    s5(chk, proj, w, m)
+
+
+def s5(chk: Check, proj: Project, w, m) -> None:
+    chk.rule("S5", "only the DEFAULT library gets the default protected-tag list (a user-supplied Library keeps its own); class identity used by register() is per class")
+    f = m.func("ComponentRegistry.library")
+    chk.analysed(fkey(m, f))
+    mk = calls(f, "mark_protected_tags")
+    ok = bool(mk) and all(any((not pol) and t == "self._library is not None" for t, pol in cond_atoms(enclosing_stmt(c))) or any(pol and t == "self._library is None" for t, pol in cond_atoms(enclosing_stmt(c))) for c in mk)
+    chk.ob("S5", "component_registry:library:protected-list-only-for-default-library", m.loc(mk[0]) if mk else m.loc(f), ok if mk else None,
+           "mark_protected_tags runs only when the registry falls back to the default library" if ok else
+           "mark_protected_tags runs for a user-supplied Library too (on every access): the owner's own protected list is replaced by the default one, so the owner's protected tag can be overwritten / removed and default names are refused on a private library")
+    cm, cf = proj.func("component", "Component.__init_subclass__")
+    st = [x for x in stmts(cf) if isinstance(x, ast.Assign) and norm(x.targets[0]).endswith("._class_hash")]
+    ok2 = len(st) == 1 and st[0] in cf.body
+    chk.ob("S5", "component:__init_subclass__:own-hash-for-every-class", cm.loc(st[0]) if st else cm.loc(cf), ok2,
+           "every component class gets its own _class_hash (register() compares it to tell classes apart)" if ok2 else
+           "_class_hash is not assigned unconditionally for every subclass: a subclass of a component inherits its parent's hash, so registering it under the parent's name silently replaces the entry instead of raising AlreadyRegistered")
 
 
 def _is_state_write(n: ast.AST) -> Optional[str]:
